@@ -169,7 +169,7 @@ def _serial_to_generated(expression: exp.Expr) -> exp.Expr:
 
     if data_type:
         expression.args["kind"].replace(data_type)
-        constraints = expression.args["constraints"]
+        constraints = expression.args.setdefault("constraints", [])
         generated = exp.ColumnConstraint(kind=exp.GeneratedAsIdentityColumnConstraint(this=False))
         notnull = exp.ColumnConstraint(kind=exp.NotNullColumnConstraint())
 
